@@ -15,6 +15,22 @@ Core Lean only.
 namespace CTV.Model.FrontEnd
 open Merkle
 
+/-- What a log entry is about (RFC 6962 §3.4 `TimestampedEntry.signed_entry`). -/
+inductive Entry where
+  | x509 (cert : Bytes)
+  | precert (issuerKeyHash : Bytes) (tbs : Bytes)
+deriving DecidableEq, Repr
+
+/-- RFC 6962 §3.4 `MerkleTreeLeaf` for a v1 timestamped entry without extensions, written from the
+    RFC text: `version(1)=0 leaf_type(1)=0 timestamp(8) entry_type(2) signed_entry extensions<0..2^16-1>`;
+    `ASN.1Cert`/`TBSCertificate` are `opaque<1..2^24-1>`, the issuer key hash is 32 bytes. -/
+def encLeaf (e : Entry) (ts : Nat) : Bytes :=
+  [0, 0] ++ beEnc 8 ts ++
+  (match e with
+   | .x509 c => [0, 0] ++ beEnc 3 c.length ++ c
+   | .precert k t => [0, 1] ++ k ++ beEnc 3 t.length ++ t) ++
+  [0, 0]
+
 structure Leaf where
   value : Bytes     -- LeafValue: TLS-encoded MerkleTreeLeaf
   extra : Bytes     -- ExtraData: the chain
